@@ -2,7 +2,7 @@
 From Coq Require Import List NArith ZArith Bool.
 From GoPdf.Base Require Import Bytes Res.
 From GoPdf.Gen Require Import Gen_Consts Gen_C02.
-From GoPdf.C02 Require Import Obj Dec Syntax Writer Stored Reader Expect Inst WriterProofs LayoutProofs ReaderProofs MoreProofs Alias AliasProofs Samples.
+From GoPdf.C02 Require Import Obj Dec Syntax Writer Stored Reader Expect Inst WriterProofs LayoutProofs ReaderProofs MoreProofs ChainProofs ObjStmProofs MemberRead Alias AliasProofs Samples.
 Import ListNotations.
 Open Scope N_scope.
 
@@ -136,6 +136,56 @@ Proof.
   - exact (get_written_lemma fmt fmt_sd parse encS decS encB decB fenc fdec deflate c H1 H2 H3 ops st Hr Hs).
 Qed.
 Print Assumptions write_read_partial.
+
+(* members of object streams: every compressed entry of the writer's map is answered by Get with the
+   normalised object that WriteCompressed was given (the container is read through its own entry,
+   its data decoded with the chain read back from its dictionary, the "num offset" table parsed, the
+   member parsed at /First + offset).  [members_bound]: at most 10000 members per object stream, the
+   limit of the Reader (a larger batch is the registered finding "huge batch"). *)
+Theorem write_read_members :
+  forall (fmt : obj -> bytes) (fmt_sd : dict -> lenrep -> bytes) (parse : bytes -> option (obj * bytes))
+         (encS decS encB decB : N -> N -> bytes -> bytes)
+         (fenc : bytes -> dict -> bytes -> bytes) (fdec : bytes -> dict -> bytes -> option bytes)
+         (deflate : bytes -> bytes) (c : cfg),
+    (forall o rest, parse (LF :: fmt o ++ LF :: rest) = Some (norm o, LF :: rest)) ->
+    (forall sd lr rest, exists d',
+        parse (LF :: fmt_sd sd lr ++ LF :: rest) = Some (ODict d', LF :: rest) /\
+        dict_get k_Length d' = Some (lenval lr) /\ ODict (dict_del k_Length d') = norm (ODict sd)) ->
+    (forall o rest, (rest = [] \/ exists t, rest = LF :: t) ->
+        exists r', parse (fmt o ++ rest) = Some (norm o, r')) ->
+    (forall n g s, decS n g (encS n g s) = s) ->
+    (forall n g s, decB n g (encB n g s) = s) ->
+    (forall name p x, fdec name (norm_parms p) (fenc name p x) = Some x) ->
+    forall f ops st,
+      run fmt fmt_sd encS encB fenc deflate c ops = Ok st -> strm st = None -> members_bound st ->
+      forall n s i, xlookup n (xref st) = Some (EComp s i) ->
+        exists o, wlookup n (wr st) = Some (0, VObj o) /\
+                  get parse decS decB fdec (encrypted c) (S (S (S f))) (rs_of c st) n 0 = Ok (RObj (norm o)).
+Proof. exact get_member_lemma. Qed.
+Print Assumptions write_read_members.
+
+(* the filter chain read back from /Filter and /DecodeParms of the normalised dictionary is the chain
+   given to OpenStream, for any number of filters ... *)
+Theorem filter_chain_read_back :
+  forall d fs, dict_get k_Filter d = None -> dict_get k_DecodeParms d = None ->
+    filter_chain (dict_of (norm (ODict (add_filters d fs)))) = map (fun f => (fst f, norm_parms (snd f))) fs.
+Proof. exact filter_chain_add_filters. Qed.
+Print Assumptions filter_chain_read_back.
+
+(* ... and decoding with it returns the bytes that were written to the stream *)
+Theorem stream_data_round_trip :
+  forall (fenc : bytes -> dict -> bytes -> bytes) (fdec : bytes -> dict -> bytes -> option bytes),
+    (forall name p x, fdec name (norm_parms p) (fenc name p x) = Some x) ->
+    forall (encB decB : N -> N -> bytes -> bytes) (c : cfg) (encd : bool) (rs : rstate) n g d fs data,
+      (forall n g s, decB n g (encB n g s) = s) ->
+      encd = encrypted c ->
+      dict_get k_Filter d = None -> dict_get k_DecodeParms d = None ->
+      (forall f, In f fs -> bytes_eqb (fst f) k_Crypt = false) ->
+      existsb (N.eqb n) (rplain rs) = false ->
+      stream_data decB fdec encd rs n g (dict_of (norm (ODict (stream_dict n g d fs))))
+                  (stream_raw encB fenc c n g d fs data) = Some data.
+Proof. exact stream_data_roundtrip. Qed.
+Print Assumptions stream_data_round_trip.
 
 (* a value may be Put under two numbers: both read back equal *)
 Theorem same_value_two_numbers :
